@@ -27,9 +27,12 @@ PNext == /\ sc.kind = "none"
                                           /\ (rs[i].ackAt = Never \/ rs[i].ackAt > PT)
                  /\ sc' = [kind |-> "probe", s |-> s, out |-> Outcome(s)]
 RNext == /\ sc.kind = "none"
-         /\ \E w \in BOOLEAN, a \in {Never, 2, 6}, ok \in BOOLEAN :
-              LET r == [wantNack |-> w, ackAt |-> a, seqOk |-> ok] IN
-              sc' = [kind |-> "relay", r |-> r, out |-> RelayOutcome(r)]
+         /\ \E w \in BOOLEAN, a \in {Never, 2, 6}, ok \in BOOLEAN, se \in BOOLEAN :
+              \* sendErr: the relay's own ping to the target cannot be sent (a local failure): nothing comes back, and
+              \* a nack that was asked for is still owed
+              LET r == [wantNack |-> w, ackAt |-> a, seqOk |-> ok, sendErr |-> se] IN
+              /\ (se => (a = Never /\ ok))
+              /\ sc' = [kind |-> "relay", r |-> r, out |-> RelayOutcome(r)]
 QNext == /\ sc.kind = "none"
          /\ \E pa \in {"udp", "tcp"}, nm \in {"self", "other", "none"}, sr \in {"given", "absent"} :
               LET p == [path |-> pa, named |-> nm, src |-> sr] IN
